@@ -117,9 +117,16 @@ impl HuffmanTable {
     pub fn build_decoder(&mut self, source: &[u8]) -> Result<u32, HuffmanTableError> {
         self.decode.clear();
 
-        let bytes_used = self.read_weights(source)?;
-        self.build_table_from_weights()?;
-        Ok(bytes_used)
+        let result = self.read_weights(source).and_then(|bytes_used| {
+            self.build_table_from_weights()?;
+            Ok(bytes_used)
+        });
+        if result.is_err() {
+            // The old table is gone and the new one is incomplete: a later treeless
+            // literals section must not find something that looks like a usable table
+            self.max_num_bits = 0;
+        }
+        result
     }
 
     /// Read weights from the provided source.
